@@ -137,6 +137,18 @@ def run_twodb(desc):
 
 def _core_spec(meta):
     meta = dict(meta)
+    if meta.pop('__two_m2m__', None):
+        plain = {'fields': [['v', {'kind': 'Integer'}]], 'meta': {}}
+        return {'app1': {
+            'T': dict(plain), 'U': {'fields': [['v', {'kind': 'Integer'}]],
+                                    'meta': {}},
+            'A': {'fields': [['v', {'kind': 'Integer'}],
+                             ['tags', {'kind': 'ManyToMany', 'to': 'app1.T'}],
+                             ['users', {'kind': 'ManyToMany',
+                                        'to': 'app1.U'}],
+                             ['more', {'kind': 'ManyToMany',
+                                       'to': 'app1.T'}]],
+                  'meta': {}}}}
     a = dict({'kind': 'Integer'}, **meta.pop('__a__', {}))
     return {'app1': {'A': {'fields': [
         ['a', a], ['b', {'kind': 'Integer'}],
@@ -208,6 +220,9 @@ CORE = [
        'attrs': {'db_index': True}},
       {'op': 'change_field', 'app': 'app1', 'model': 'A', 'name': 'c',
        'attrs': {'db_index': True}}]),
+    # a model owning several many-to-many tables is deleted
+    ({'__two_m2m__': True},
+     [{'op': 'delete_model', 'app': 'app1', 'model': 'A'}]),
 ]
 
 
